@@ -107,13 +107,17 @@ package harfbuzz
 //@   ensures [only-these-bits] forall(k, start, end, infos[k].Mask == old(infos[k].Mask) || infos[k].Mask == old(infos[k].Mask)|mask)
 //@   ensures [cluster-of-reference-untouched] forall(k, start, end, implies(infos[k].Cluster == cluster, infos[k].Mask == old(infos[k].Mask)))
 //@   ensures [clusters-kept] forall(k, 0, len(infos), infos[k].Cluster == old(infos[k].Cluster))
+//@   ensures [scratch-flags-only-added] b.scratchFlags&old(b.scratchFlags) == old(b.scratchFlags)
 //@   modifies infos[start:end].Mask; b.scratchFlags
+//@   loop 1 invariant [scratch-flags-only-added] b.scratchFlags&old(b.scratchFlags) == old(b.scratchFlags)
 //@   loop 1 invariant [i-range] start <= i && i <= end
 //@   loop 1 invariant [done] forall(k, start, i, infos[k].Mask == ite(infos[k].Cluster != cluster, old(infos[k].Mask)|mask, old(infos[k].Mask)))
 //@   loop 1 invariant [todo] forall(k, i, end, infos[k].Mask == old(infos[k].Mask))
+//@   loop 2 invariant [scratch-flags-only-added] b.scratchFlags&old(b.scratchFlags) == old(b.scratchFlags)
 //@   loop 2 invariant [i-range] start <= i && i <= end && clusterFirst == infos[start].Cluster && cluster == clusterFirst
 //@   loop 2 invariant [done] forall(k, i, end, infos[k].Cluster != clusterFirst && infos[k].Mask == old(infos[k].Mask)|mask)
 //@   loop 2 invariant [todo] forall(k, start, i, infos[k].Mask == old(infos[k].Mask))
+//@   loop 3 invariant [scratch-flags-only-added] b.scratchFlags&old(b.scratchFlags) == old(b.scratchFlags)
 //@   loop 3 invariant [i-range] start <= i && i <= end && clusterLast == infos[end-1].Cluster && cluster == clusterLast
 //@   loop 3 invariant [done] forall(k, start, i, infos[k].Cluster != clusterLast && infos[k].Mask == old(infos[k].Mask)|mask)
 //@   loop 3 invariant [todo] forall(k, i, end, infos[k].Mask == old(infos[k].Mask))
@@ -128,8 +132,9 @@ package harfbuzz
 //@   ensures [interior-flags-non-minimal] implies(interior && !fromOutBuffer && old(b.ClusterLevel == Characters || monotoneRange(b.Info, start, min(end0, len(b.Info)))),
 //@     | forall(k, start, old(min(end0, len(b.Info))), implies(exists(l, start, old(min(end0, len(b.Info))), mark(l) && old(b.Info[l].Cluster < b.Info[k].Cluster)), b.Info[k].Mask == old(b.Info[k].Mask)|mask)))
 //@   ensures [outside-untouched] implies(!fromOutBuffer, forall(k, 0, len(b.Info), implies(k < start || k >= min(end0, len(b.Info)), b.Info[k].Mask == old(b.Info[k].Mask))))
+//@   ensures [buffer-marked] implies(!(interior && !fromOutBuffer && old(min(end0, len(b.Info)))-start < 2), b.scratchFlags&bsfHasGlyphFlags != 0)
 //@   ensures [clusters-kept] implies(!fromOutBuffer, sameslice(b.Info, old(b.Info)) && forall(k, 0, len(b.Info), b.Info[k].Cluster == old(b.Info[k].Cluster)))
-//@   modifies unspecified
+//@   modifies b.scratchFlags; all(GlyphInfo)
 //@   loop 1 invariant [i-range] start <= i && i <= end && end <= len(info) && sameslice(info, b.Info) && sameslice(b.Info, old(b.Info))
 //@   loop 1 invariant [done] forall(k, 0, len(info), info[k].Mask == ite(start <= k && k < i, old(b.Info[k].Mask)|mask, old(b.Info[k].Mask)) && info[k].Cluster == old(b.Info[k].Cluster))
 //@   assert_at call findMinCluster#1 : [same-range] end == min(end0, len(b.Info)) && sameslice(info, b.Info)
@@ -142,7 +147,7 @@ package harfbuzz
 //@   ensures [flags-non-minimal-clusters] implies(old(b.ClusterLevel == Characters || monotoneRange(b.Info, start, min(end, len(b.Info)))),
 //@     | forall(k, start, old(min(end, len(b.Info))), implies(exists(l, start, old(min(end, len(b.Info))), mark(l) && old(b.Info[l].Cluster < b.Info[k].Cluster)), b.Info[k].Mask&(GlyphUnsafeToBreak|GlyphUnsafeToConcat) == GlyphUnsafeToBreak|GlyphUnsafeToConcat)))
 //@   ensures [outside-untouched] forall(k, 0, len(b.Info), implies(k < start || k >= min(end, len(b.Info)), b.Info[k].Mask == old(b.Info[k].Mask)))
-//@   modifies unspecified
+//@   modifies b.scratchFlags; all(GlyphInfo)
 //
 // clearPositions (C01, "clearPositions re-synchronises Pos with Info before positioning").
 //@ func Buffer.clearPositions C01
@@ -233,4 +238,14 @@ package harfbuzz
 //@   ensures [device-placement-reported] implies(format&tables.XPlaDevice != 0 && (old(c.font.face.xPpem) != 0 || old(len(c.font.face.coords)) != 0) && v.XPlaDevice != nil, result) &&
 //@     | implies(format&tables.YPlaDevice != 0 && (old(c.font.face.yPpem) != 0 || old(len(c.font.face.coords)) != 0) && v.YPlaDevice != nil, result)
 //@   ensures [nothing-to-apply] implies(format == 0, !result)
+//@   modifies unspecified
+//
+// Contextual lookups (C18, "unsafeToBreak ... called by every contextual match"): once backtrack, input and lookahead
+// of a chaining rule have matched, the matched range is flagged before the nested lookups are applied - also for a
+// rule without lookup records (an "ignore" rule still decides the outcome by stopping the search). Observable effect
+// used here: the buffer is marked as carrying glyph flags.
+//@ func otApplyContext.chainContextApplyLookup C18
+//@   mode bv
+//@   requires [context] c != nil && c.buffer != nil
+//@   assert_at call applyLookup#1 : [matched-range-flagged] c.buffer.scratchFlags&bsfHasGlyphFlags != 0
 //@   modifies unspecified
